@@ -72,13 +72,17 @@ check(
           "all-ones/min/max/>=127 bytes). Extra generators steer LowCardinality dictionaries to 254..257 (thorough: "
           "65534..65537) distinct values and strings to the 16383/16384 varint boundary."),
     quick=[unit("codec", "^TestC01", checks=2500, timeout=900),
-           unit("codec", "^TestC01", variant="purego", checks=2500, timeout=900)],
+           unit("codec", "^TestC01", variant="purego", checks=2500, timeout=900),
+           unit("codec", "^TestEveryKindC01", checks=20, timeout=900),
+           unit("codec", "^TestEveryKindC01", variant="purego", checks=20, timeout=900)],
     thorough=[unit("codec", "^TestC01Block", checks=80000, timeout=6000, shards=8),
               unit("codec", "^TestC01Block", variant="purego", checks=80000, timeout=6000, shards=4),
               unit("codec", "^TestC01(LargeDictionaries|BigStrings)", checks=600, timeout=6000, shards=2),
               unit("codec", "^TestC01(LargeDictionaries|BigStrings)", variant="purego", checks=600, timeout=6000, shards=2),
               unit("codec", "^TestC01RawCopy", checks=40000, timeout=6000, shards=4),
-              unit("codec", "^TestC01RawCopy", variant="purego", checks=40000, timeout=6000, shards=2)],
+              unit("codec", "^TestC01RawCopy", variant="purego", checks=40000, timeout=6000, shards=2),
+              unit("codec", "^TestEveryKindC01", checks=1500, timeout=6000, shards=2),
+              unit("codec", "^TestEveryKindC01", variant="purego", checks=1500, timeout=6000, shards=2)],
     manifest=dict(
         text="Generated-input search over the whole type catalog with five oracles per case: buffer independence, byte "
              "equality with an independent reference encoder (validity + decoded values for LowCardinality, whose encoding "
@@ -280,11 +284,15 @@ check(
           "sequence / of the block. Non-trivial = a ChainWrite between buffer appends with >= 2 flushes, or a failing flush; "
           "for (c): at least one row in a zero-copy column."),
     quick=[unit("codec", "^TestC14", checks=4000, timeout=900),
-           unit("codec", "^TestC14", variant="purego", checks=2000, timeout=900)],
+           unit("codec", "^TestC14", variant="purego", checks=2000, timeout=900),
+           unit("codec", "^TestEveryKindC14", checks=10, timeout=900),
+           unit("codec", "^TestEveryKindC14", variant="purego", checks=10, timeout=900)],
     thorough=[unit("codec", "^TestC14(ExhaustiveShort|RandomLong|ColumnPaths)", checks=50000, timeout=6000, shards=10),
               unit("codec", "^TestC14(ExhaustiveShort|RandomLong|ColumnPaths)", variant="purego", checks=50000, timeout=6000, shards=3),
               unit("codec", "^TestC14LargeDictionaryPaths", checks=4000, timeout=6000, shards=2),
-              unit("codec", "^TestC14LargeDictionaryPaths", variant="purego", checks=4000, timeout=6000, shards=1)],
+              unit("codec", "^TestC14LargeDictionaryPaths", variant="purego", checks=4000, timeout=6000, shards=1),
+              unit("codec", "^TestEveryKindC14", checks=600, timeout=6000, shards=2),
+              unit("codec", "^TestEveryKindC14", variant="purego", checks=600, timeout=6000, shards=1)],
     manifest=dict(
         text="Model-based testing of the writer against a byte-list model: exhaustive over all short operation sequences, "
              "random long ones, plus the metamorphic path equivalence vectored == buffered for columns and blocks.",
